@@ -39,10 +39,12 @@ SPDX_SNIPPET_INDICATOR = b"SPDX-SnippetBegin"
 
 _LOGGER = logging.getLogger(__name__)
 
-_END_PATTERN = r"{}$".format(
-    "".join(
-        {
-            r"(?:{})*".format(item)  # pylint: disable=consider-using-f-string
+# Any run of terminators, in any order. The alternatives are sorted so that
+# the pattern does not depend on the iteration order of the set.
+_END_PATTERN = r"(?:{})*$".format(
+    "|".join(
+        sorted({
+            item
             for item in chain(
                 (
                     re.escape(style.MULTI_LINE.end)
@@ -63,7 +65,7 @@ _END_PATTERN = r"{}$".format(
                     ]
                 ),
             )
-        }
+        })
     )
 )
 _LICENSE_IDENTIFIER_PATTERN = re.compile(
